@@ -28,11 +28,11 @@ FORBIDDEN = re.compile(r'\b(Admitted|admit|Axiom|Axioms|Parameter|Parameters|Con
 # property -> (Properties file, [tie files], human description of the theorems)
 TIE_FOR = {
     'C01': ['TieClasses', 'TieMath'], 'C02': ['TieClasses', 'TieMath'],
-    'C03': ['TieClasses', 'TieMath', 'TieFormulas'], 'C04': ['TieClasses', 'TieMath', 'TieFormulas'],
-    'C05': ['TieClasses', 'TieReducers', 'TieRules', 'TieSynth'],
-    'C06': ['TieClasses', 'TieReducers', 'TieMath', 'TieFormulas', 'TieRules', 'TieSynth'],
-    'C07': ['TieClasses', 'TieReducers', 'TieMath', 'TieFormulas', 'TieRules'],
-    'C08': ['TieReducers', 'TieRules'],
+    'C03': ['TieClasses', 'TieMath', 'TieFormulas', 'TieOrch'], 'C04': ['TieClasses', 'TieMath', 'TieFormulas', 'TieOrch'],
+    'C05': ['TieClasses', 'TieReducers', 'TieRules', 'TieSynth', 'TieSynthAll', 'TieNorm'],
+    'C06': ['TieClasses', 'TieReducers', 'TieMath', 'TieFormulas', 'TieOrch', 'TieRules', 'TieSynth', 'TieSynthAll', 'TieNorm'],
+    'C07': ['TieClasses', 'TieReducers', 'TieMath', 'TieFormulas', 'TieOrch', 'TieRules'],
+    'C08': ['TieReducers', 'TieRules', 'TieNorm'],
     'C09': ['TieCache', 'TieBound'], 'C10': ['TieWrites'], 'C11': ['TieReducers', 'TieBound', 'TieRules'],
     'C12': ['TieClasses'], 'C13': ['TiePublic'], 'C14': ['TieSets'], 'C15': ['TieOperators'],
     'C16': ['TieClasses'], 'C17': ['TieClasses', 'TieMath'], 'C18': ['TieSets'],
